@@ -1984,6 +1984,11 @@ fn main() {
             if pid == "C15" { rs.push(("into_request_bytes", search_into_bytes())); rs.push(("identity_passthrough", search_identity())); }
             if pid == "C05" { rs.push(("requirement_mutators", search_requirement_mutators())); }
             if pid == "C16" { rs.push(("calendar_exhaustive", calendar_exhaustive())); rs.push(("regex_transcription", regex_transcription_crosscheck(200_000))); }
+            if pid == "C17" {
+                let seed: u64 = std::env::var("VERIF_SEED").ok().and_then(|s| s.parse().ok()).unwrap_or(0);
+                rs.push(("debug_display_leaks", search_debug_leaks()));
+                rs.push(("differential_leak_scan", search_differential(seed, 50_000, Some("C17"))));
+            }
             if pid == "C01" || pid == "C02" || pid == "C13" {
                 let seed: u64 = std::env::var("VERIF_SEED").ok().and_then(|s| s.parse().ok()).unwrap_or(0);
                 rs.push(("differential", search_differential(seed, 50_000, Some(pid))));
@@ -1992,6 +1997,7 @@ fn main() {
             let found: Vec<Value> = rs.iter().filter_map(|r| r.1 .1.clone().map(|d| json!({"search": r.0, "disagreement": d}))).collect();
             json!({"ok": true, "found": !found.is_empty(), "cases": cases, "searches": rs.iter().map(|r| json!({"name": r.0, "cases": r.1.0})).collect::<Vec<_>>(), "disagreements": found,
                    "bound": match pid {
+                       "C17" => "debug_display_leaks: Debug/Display renderings of the five key types and of GetSigningKeyResponse searched for the secret and the derived keys (hex, decimal); differential_leak_scan: BOUNDED, 50 000 pseudo-random requests, the error text and every debug-level log record of each refusal searched for the signature the reference model computed, the signing key and the secret",
                        "C01" | "C02" | "C13" => "differential: BOUNDED, 50 000 pseudo-random reference-signed and mutated requests (seed VERIF_SEED) through sigv4_validate_request against the reference model of the whole validation; it checks the assumed contracts of the dependencies as much as the crate",
                        "C16" => "calendar_exhaustive: COMPLETE by native execution over every (y, m, d) the pattern admits (0000-9999 x 01-12 x 01-31) against chrono; regex_transcription: BOUNDED, 200 000 structured and mutated strings against the regex crate on the repository's exact pattern text",
                        _ => "fixed lists of Content-Type spellings / body lengths / requirement-set constructions: the COMPILED get_content_type_and_charset, trim_ascii, IntoRequestBytes impls and VecSignedHeaderRequirements mutators against the same specs their extracted text is verified against" }})
